@@ -3,7 +3,10 @@
 
       mux_total (Proofs/C36)             no panic outcome for any non-empty packet; invariant "listed channels are open"
       unknown_channel                    error, or (channel request) untouched state + failure reply iff want-reply
-      global_reply_dropped_when_not_pending, localGlobal_drains, gate_localGlobal      global reply gate
+      global_reply_dropped_when_not_pending, localGlobal_drains, gate_localGlobal, gate_init, gate_onePacket,
+      gate_completions, gate_shutdown, global_reply_needs_waiter
+                                         global reply gate: `Gate` (a reply is buffered only while a SendRequest
+                                         waits) is an invariant of every model transition
       chan_reply_only_when_pending       CHANNEL_SUCCESS/FAILURE with no request in flight: dropped, state untouched
       chan_reply_queued_when_pending, chanReq_opens_gate_and_drains, chanReq_forgets_queue, chan_reply_fresh
                                          channel reply gate: sentRequestMu / gate / drain of the 16-slot msg queue;
@@ -38,7 +41,7 @@ theorem unknown_channel {m : Mux} {p : Bytes} {id : Nat} {o : Outcome} {m' : Mux
   have : ¬ (t :: body).length < 5 := by omega
   simp only [this, if_false, hid, hunk] at h
   split at h
-  · cases h
+  · cases h; exact Or.inl ⟨rfl, rfl, rfl⟩
   · cases h; exact Or.inl ⟨rfl, rfl, rfl⟩
   · rename_i pid name want data hd
     split at h
@@ -286,6 +289,145 @@ theorem listed_completions {m : Mux} (hl : Listed m) : Listed (completions m).1 
   split at hc <;> first
     | exact hmem _ rfl hc
     | (split at hc <;> exact hmem _ rfl hc)
+
+def Globals (m m' : Mux) : Prop :=
+  m'.globalBuf = m.globalBuf ∧ m'.globalPending = m.globalPending ∧ m'.globalCaller = m.globalCaller
+
+theorem globals_setChan (m : Mux) (id : Nat) (x : Option Chan) : Globals m (setChan m id x) := ⟨rfl, rfl, rfl⟩
+
+theorem globals_handleData (m : Mux) (id : Nat) (c : Chan) (p : Bytes) (hdr code : Nat) :
+    Globals m (handleDataPkt m id c p hdr code).2.1 := by
+  unfold handleDataPkt
+  split
+  · exact ⟨rfl, rfl, rfl⟩
+  · split
+    · exact ⟨rfl, rfl, rfl⟩
+    · split
+      · exact ⟨rfl, rfl, rfl⟩
+      · split <;> exact ⟨rfl, rfl, rfl⟩
+
+theorem globals_handleChan {m : Mux} {id : Nat} {c : Chan} {p : Bytes} {t : Nat} {o : Outcome} {m' : Mux} {ev : Evs}
+    (h : handleChanPacket m id c p t = some (o, m', ev)) : Globals m m' := by
+  unfold handleChanPacket at h
+  split at h
+  · simp only [Option.some.injEq] at h
+    have := globals_handleData m id c p 9 0
+    rw [h] at this; exact this
+  · split at h
+    · simp only [Option.some.injEq] at h
+      have := globals_handleData m id c p 13 ((rdU32 (p.drop 5)).map (·.1) |>.getD 0)
+      rw [h] at this; exact this
+    · repeat' split at h
+      all_goals first
+        | (cases h; done)
+        | (cases h; exact ⟨rfl, rfl, rfl⟩)
+        | (simp only [Option.some.injEq, Prod.mk.injEq] at h; obtain ⟨_, rfl, _⟩ := h; exact ⟨rfl, rfl, rfl⟩)
+
+
+theorem gate_of_globals {m m' : Mux} (h : Globals m m') (hg : Gate m) : Gate m' := by
+  unfold Gate; rw [h.1, h.2.1]; exact hg
+
+theorem globals_addChan (m : Mux) (c : Chan) : Globals m (addChan m c).1 := by
+  unfold addChan; split <;> exact ⟨rfl, rfl, rfl⟩
+
+/-- the gate invariant — "a global reply is buffered only while a SendRequest is waiting for one" — is preserved by
+    every packet the peer can send -/
+theorem gate_onePacket {m : Mux} {p : Bytes} {o : Outcome} {m' : Mux} {ev : Evs}
+    (hg : Gate m) (h : onePacket m p = some (o, m', ev)) : Gate m' := by
+  unfold onePacket at h
+  split at h
+  · cases h; exact hg
+  · rename_i t8 body
+    dsimp only at h
+    split at h
+    · -- channel open: only chanList changes
+      have hadd : ∀ c, Globals m (addChan { m with nextUid := m.nextUid + 1 } c).1 := fun c =>
+        globals_addChan { m with nextUid := m.nextUid + 1 } c
+      repeat' split at h
+      all_goals first
+        | (cases h; done)
+        | (cases h; exact hg)
+        | (cases h; exact gate_of_globals (hadd _) hg)
+    · split at h
+      · -- global packets
+        repeat' split at h
+        all_goals first
+          | (cases h; done)
+          | (cases h; exact hg)
+          | (cases h; intro _; simp_all [Gate])
+      · split at h
+        · repeat' split at h
+          all_goals first
+            | (cases h; done)
+            | (cases h; exact hg)
+        · split at h
+          · cases h; exact hg
+          · split at h
+            · cases h; exact hg
+            · split at h
+              · exact gate_of_globals (globals_handleChan h) hg
+              · repeat' split at h
+                all_goals first
+                  | (cases h; done)
+                  | (cases h; exact hg)
+
+theorem gate_init : Gate Mux.init := by simp [Gate, Mux.init]
+
+/-- …and by the return of blocked callers and by the end of the connection: the reply a SendRequest returns is
+    consumed together with the closing of the gate -/
+theorem gate_completions {m : Mux} (hg : Gate m) : Gate (completions m).1 := by
+  unfold completions Gate
+  cases hc : m.globalCaller with
+  | none => simp; exact hg
+  | some k =>
+    cases hb : m.globalBuf with
+    | some r => cases r <;> simp
+    | none =>
+      by_cases he : m.ended = true
+      · simp [he, hb]
+      · simp [he, hb]
+
+theorem gate_shutdown (m : Mux) : Gate (shutdown m) := by simp [Gate, shutdown]
+
+/-- a global reply is handed over only to a waiting caller: with nobody waiting `completions` neither reports a
+    G… result nor touches the reply buffer -/
+theorem global_reply_needs_waiter (m : Mux) (h : m.globalCaller = none) :
+    (completions m).1.globalBuf = m.globalBuf ∧ (completions m).1.globalPending = m.globalPending := by
+  simp [completions, h]
+
+
+
+/-- non-vacuity of `unknown_channel`: a channel request with want-reply for the never-used id 5 satisfies the
+    hypotheses and is answered with CHANNEL_FAILURE (one packet written, state untouched) -/
+example : chanPacket [98, 0, 0, 0, 5, 0, 0, 0, 0, 1] 5 ∧ getChan Mux.init 5 = none ∧
+    ∃ ev, onePacket Mux.init [98, 0, 0, 0, 5, 0, 0, 0, 0, 1] = some (.ok, Mux.init, ev) ∧ ev.length = 1 := by
+  refine ⟨⟨98, _, [0, 0, 0, 0, 1], rfl, by decide, by decide, by decide, by decide, by decide, by decide, rfl⟩,
+    by simp [getChan, Mux.init], ?_⟩
+  simp [onePacket, Mux.init, rdU32, getChan, decode, decodeBody, rdStr, rdBool]
+
+/-- a mux with one channel opened by us and already confirmed -/
+def muxConfirmed : Mux := { Mux.init with chans := [some { newChan false 0 with decided := true, accepted := true }] }
+
+def confirm0 : Bytes := [91, 0, 0, 0, 0, 0, 0, 0, 7, 0, 16, 0, 0, 0, 0, 128, 0]
+
+/-- non-vacuity of `dup_confirm_rejected`: a second confirmation for channel 0 -/
+example : onePacket muxConfirmed confirm0 = some (.err, muxConfirmed, []) :=
+  dup_confirm_rejected (c := { newChan false 0 with decided := true, accepted := true }) rfl (Or.inr rfl)
+    ⟨91, _, [0, 0, 0, 7, 0, 16, 0, 0, 0, 0, 128, 0], rfl, by decide, by decide, by decide, by decide, by decide, by decide, rfl⟩
+    ⟨_, rfl⟩ ⟨0, 7, 1048576, 32768, [], by simp [decode, decodeBody, confirm0, rdU32]⟩
+
+/-- non-vacuity of `chan_reply_only_when_pending`: CHANNEL_SUCCESS for channel 0 with no request in flight -/
+example : onePacket muxConfirmed [99, 0, 0, 0, 0] = some (.ok, muxConfirmed, []) :=
+  chan_reply_only_when_pending (c := { newChan false 0 with decided := true, accepted := true }) 99 [0, 0, 0, 0]
+    (Or.inl rfl) rfl rfl rfl
+
+/-- non-vacuity of `mux_total` / `mux_never_blocks`: `Listed muxConfirmed` holds and the packet above is handled -/
+example : Listed muxConfirmed := by
+  intro c hc
+  simp [muxConfirmed, Mux.init] at hc
+  subst hc
+  exact ⟨rfl, by simp [newChan], by simp [newChan]⟩
+
 
 /-! ## The former blocked-loop finding
     Before repo commit 18df6c0 the `default:` arm of channel.handlePacket queued every decoded non-channel message
